@@ -7,7 +7,7 @@ V = os.path.dirname(os.path.dirname(os.path.abspath(__file__)))
 
 META = {
  "C01": ("translation_validation", "§3 C01",
-         "Translation validation of the macro's output against an independent re-implementation of the short/long/optional spelling rule (set equality of the spelled language per witness interface, every spelling and near miss), plus structural rules on the runtime walk (Node::child, header parsers, execute, generated dispatcher). The meaning of the parser combinators (satisfy, take_while, optional, tag) that the skeleton rules build on is read from their own bodies on every run (contract rule PR). The parsed call's query flag and node are tied to what parse consumed (C01-Q).",
+         "Translation validation of the macro's output against an independent re-implementation of the short/long/optional spelling rule (set equality of the spelled language per witness interface, every spelling and near miss), plus structural rules on the runtime walk (Node::child, header parsers, execute, generated dispatcher). The meaning of the parser combinators (satisfy, take_while, optional, tag) that the skeleton rules build on is read from their own bodies on every run (contract rule PR). The parsed call's query flag and node are tied to what parse consumed (C01-Q). parse resolves a header once, relative to (root, path) (C01-H).",
          "Trusted: rustc front end, factdump, the 30-line oracle. Declaration sets outside the witness families are covered only by the structural rules on the runtime.",
          "translation validation of macro expansion + HIR structural rules"),
  "C02": ("other", "§3 C02",
@@ -31,7 +31,7 @@ META = {
          "Decides structural conditions per path; the history-level equality follows by the argument in DESIGN.md.",
          "path-summary rules over HIR"),
  "C07": ("other", "§3 C07",
-         "Buffer discipline K1-K6 of process by linear normal forms of the offset updates on every path; compaction before overflow reset; await-in-place.",
+         "Buffer discipline K1-K6 of process by linear normal forms of the offset updates on every path; compaction before overflow reset; await-in-place. Nothing but the transport's read and the compaction writes the command buffer (K8).",
          "Decides the buffer discipline, not equality of behaviour across chunkings as such.",
          "path summaries + linear normal forms"),
  "C08": ("other", "§3 C08",
@@ -47,11 +47,11 @@ META = {
          "Trusted: rustc HIR/typeck, factdump, pathsum.",
          "path-summary typestate over type-checked HIR"),
  "C11": ("other", "§3 C11",
-         "White-space class denotes exactly {0..9,11..32}; classes of headers and numbers closed under ASCII case; optional white space exactly where the grammar allows (parser skeleton); case-insensitive child lookup. The meaning of the parser combinators (satisfy, take_while, optional, tag) that the skeleton rules build on is read from their own bodies on every run (contract rule PR).",
+         "White-space class denotes exactly {0..9,11..32}; classes of headers and numbers closed under ASCII case; optional white space exactly where the grammar allows (parser skeleton); case-insensitive child lookup. The meaning of the parser combinators (satisfy, take_while, optional, tag) that the skeleton rules build on is read from their own bodies on every run (contract rule PR). run examines its input through parse only (C11-R); character data reaches handlers through case-ignoring conversions only (C11-C03V).",
          "Decides the grammar facts from which equality of behaviour of variants follows.",
          "byte-class denotation + parser skeleton rules"),
  "C12": ("other", "§3 C12",
-         "Incomplete constructed only under end-of-input conditions, never masked after commitment; take_while sites cannot succeed because input ended (class excludes newline or mandatory tag follows); >=1 byte consumed. The meaning of the parser combinators (satisfy, take_while, optional, tag) that the skeleton rules build on is read from their own bodies on every run (contract rule PR).",
+         "Incomplete constructed only under end-of-input conditions, never masked after commitment; take_while sites cannot succeed because input ended (class excludes newline or mandatory tag follows); >=1 byte consumed. The meaning of the parser combinators (satisfy, take_while, optional, tag) that the skeleton rules build on is read from their own bodies on every run (contract rule PR). Parsers are applied to suffixes of the input only, never to a window (C12-W).",
          "Derives the for-all-continuations statement from structural facts.",
          "who-may-construct + byte-class + skeleton rules"),
  "C13": ("proof", "§3 C13",
